@@ -28,3 +28,19 @@ META['C12'] = dict(
     note='Trusted: model/ref_aes.cpp (self-tested against FIPS-197 App.B and the CPU AESENC/AESDEC at setup). The AES code emitted by the JIT is covered by C04, not here.',
     technique='property-based testing (rapidcheck) against an independent reference model + differential soft/hard + exhaustive table enumeration',
 )
+
+META['C04'] = dict(
+    text='Differential property-based testing: generated program buffers are injected (link-time wrap of the program generator) into the shipped run() of an '
+         'interpreted and a JIT-compiled VM of the same configuration; 13.5k programs quick / 660k thorough, each 2048 iterations, full register file + 2 MiB '
+         'scratchpad + MXCSR compared. Exploration of a 2^25600 space with a generator biased to the encodings the JIT special-cases.',
+    note='Trusted: the interpreter as comparison side (a defect shared by both engines is invisible here; C05 compares the interpreter with the spec model). '
+         'Emitted code is not sanitizer-instrumented.',
+    technique='differential property-based testing (rapidcheck + instruction-wise delta-debugging minimiser), interpreter vs x86 JIT',
+)
+META['C07'] = dict(
+    text='Three generated checks: branch-constant arithmetic on the decoder\'s own constants (3M quick / 200M thorough triples with forced carry patterns), structural '
+         'invariant over decoded bytecode and the JIT\'s emitted jz displacements (20k / 1M programs), and instruction counting while stepping the interpreter plus JIT '
+         'equality on branch-heavy programs under a per-case hang watchdog. The universal arithmetic claim is sampled, not proved.',
+    note='Trusted: harness reading of the bytecode fields; per-case 90 s watchdog (>1000x a normal case) is the only clock and a timeout must reproduce 3 times.',
+    technique='property-based testing (rapidcheck): arithmetic invariant + structural validity predicate + step-counting invariant',
+)
